@@ -35,6 +35,8 @@ type c09Input struct {
 	keys  [][]byte
 	isIdx bool // an index file rather than a CAR
 	hasIndex bool // a CARv2 carrying an index
+	claim string // "hdr" | "inner-hdr" | "sec": a length prefix over the row's limit whose body is cut off or absent
+	pre bool // (claim sec) a valid section precedes the claiming one
 	implOnly bool // too costly for the extracted model: judged at implementation level only
 	maxIsIdentity bool
 }
@@ -318,6 +320,8 @@ func c09Rows(r *RNG, b *c09Base) []c09Row {
 		{r.Bool(), h - 1, s, "over", "exact"},
 		{r.Bool(), h, s - 1, "exact", "over"},
 		{r.Bool(), h + 1, s + 1, "", ""},
+		// both limits small but above every real size: nothing may be refused
+		{r.Bool(), 1 << 10, 4 << 10, "exact", "exact"},
 	}
 }
 
@@ -327,6 +331,40 @@ var c09DefaultRow = c09Row{false, 32 << 20, 8 << 20, "", ""}
 // expectation for this entry)
 func c09ExpectFor(j *c09Job, in *c09Input, row c09Row) c09Expect {
 	e := j.Entry
+	if in.claim != "" {
+		hdr := false
+		switch in.claim {
+		case "hdr": // the very first length prefix of the file
+			switch e {
+			case c09EBr, c09ECarv1, c09EVersion, c09EBrSkip, c09EReader, c09ELoadIndex, c09ERobs, c09EStorage, c09EInspect,
+				c09EReplaceRoots, c09EExtract, c09EResume, c09EResumeHuge:
+				hdr = true
+			}
+		case "inner-hdr": // the payload header of a CARv2
+			switch e {
+			case c09EBr, c09EBrSkip, c09EReader, c09ELoadIndex, c09ERobs, c09EStorage, c09EInspect, c09EReplaceRoots,
+				c09EResume, c09EResumeHuge:
+				hdr = true
+			}
+		case "sec":
+			switch e {
+			case c09EBr, c09EInspect:
+				return c09Expect{"over", "sec2big"}
+			case c09ECarv1:
+				if !in.v2 {
+					return c09Expect{"over", "sec2big"}
+				}
+			case c09EBrSkip:
+				if !(j.Flavour == 2 && !in.v2 && in.pre) {
+					return c09Expect{"over", "sec2big"}
+				}
+			}
+		}
+		if hdr {
+			return c09Expect{"over", "hdr2big"}
+		}
+		return c09Expect{kind: "none"}
+	}
 	if e == c09ELoadIndex && in.v2 && j.Flavour == 1 {
 		// LoadIndex over a plain io.Reader mis-positions itself on a CARv2 (DESIGN.md section 6 #2, property C03):
 		// what it then parses is not the header, so no limit expectation is attached
@@ -457,6 +495,14 @@ func c09Plan(r *RNG, plan *[]c09Planned, in *c09Input, row c09Row, entries []int
 		ex := c09ExpectFor(&j, in, row)
 		triv := in.valid && row.hdr == "" && row.sec == ""
 		*plan = append(*plan, c09Planned{job: j, expect: ex, class: in.class, trivial: triv})
+		if in.claim != "" && j.Entry == c09ELoadIndex {
+			// every front end of the index generator: GenerateIndex, LoadIndex, ReadOrGenerateIndex, GenerateIndex+options
+			for v := byte(1); v < 4; v++ {
+				j2 := j
+				j2.Choice = []byte{(j.Choice[0] + v) % 4}
+				*plan = append(*plan, c09Planned{job: j2, expect: c09ExpectFor(&j2, in, row), class: in.class, trivial: triv})
+			}
+		}
 	}
 }
 
@@ -498,6 +544,8 @@ func c09Produce(c *Ctx) {
 				return c09Row{r.Bool(), uint64(b.hdrLen) - 1, uint64(b.maxSec) - 1, "", ""}
 			case 2, 3:
 				return c09Row{true, 32 << 20, 8 << 20, "", ""}
+			case 4, 5:
+				return c09Row{r.Bool(), 1 << 10, 4 << 10, "", ""}
 			}
 			return c09DefaultRow
 		}
@@ -603,6 +651,55 @@ func c09Produce(c *Ctx) {
 			amp.implOnly = true
 			c09Plan(r, &plan, amp, c09DefaultRow, []int{c09EBr, c09ERoot, c09EBrSkip, c09EReader, c09ELoadIndex, c09ERobs,
 				c09EStorage, c09EInspect, c09EResumeHuge})
+		}
+		// length prefixes that claim more than the limit while the body is cut off or absent: the answer must
+		// be the too-large error, with nothing allocated for the claim
+		for _, lim := range [][2]uint64{{32 << 20, 8 << 20}, {1 << 10, 4 << 10}, {uint64(b.hdrLen), uint64(b.maxSec)}} {
+			row := c09Row{r.Bool(), lim[0], lim[1], "", ""}
+			claims := func(limit uint64) []uint64 {
+				var out []uint64
+				for _, l := range []uint64{limit + 1, 2 * limit, 24 << 20, 1 << 31} {
+					if l > limit {
+						out = append(out, l)
+					}
+				}
+				return out
+			}
+			tails := [][]byte{nil, r.Bytes(3)}
+			first := b.payload[:b.lay.secEnd[0]] // header and the first section
+			for _, l := range claims(lim[0]) {
+				for _, tail := range tails {
+					body := append(c09PutUvarint(l), tail...)
+					in := mk(body, "claim:header", false, false)
+					in.dpad, in.claim = 0, "hdr"
+					c09Plan(r, &plan, in, row, c09CarEntries)
+					w, _ := c09Wrap(body, dpad, 0, 0)
+					in2 := mk(w, "claim:inner-header", true, false)
+					in2.claim = "inner-hdr"
+					c09Plan(r, &plan, in2, row, c09CarEntries)
+				}
+			}
+			for _, l := range claims(lim[1]) {
+				for _, tail := range tails {
+					for _, pre := range []bool{false, true} {
+						base := b.payload[:b.lay.hdrEnd]
+						if pre {
+							base = first
+						}
+						if uint64(b.hdrLen) > lim[0] || (pre && uint64(b.lay.secEnd[0]-b.lay.cidStart[0]) > lim[1]) {
+							continue // the honest part must fit the limits
+						}
+						body := append(append(append([]byte(nil), base...), c09PutUvarint(l)...), tail...)
+						in := mk(body, "claim:section", false, false)
+						in.dpad, in.claim, in.pre = 0, "sec", pre
+						c09Plan(r, &plan, in, row, c09CarEntries)
+						w, _ := c09Wrap(body, dpad, 0, 0)
+						in2 := mk(w, "claim:section-in-v2", true, false)
+						in2.claim, in2.pre = "sec", pre
+						c09Plan(r, &plan, in2, row, c09CarEntries)
+					}
+				}
+			}
 		}
 		// raw random, with and without a plausible start
 		for t := 0; t < 12; t++ {
@@ -740,6 +837,14 @@ func c09Corpus(c *Ctx) {
 	// need minutes for 7000 overlapping CIDs)
 	add("known:section-shorter-than-its-cid", c09Job{Entry: c09ERobs, MaxH: def.maxH, MaxS: def.maxS, ImplOnly: true,
 		In: c09AmplifyPayload(hdrOnly, 64<<10), Keys: [][]byte{idAB.Bytes()}}, c09Expect{kind: "none"})
+	// known finding: Resume's version probe reads the first header under the default limit (TotalMain.probe_file)
+	add("known:resume-first-header-over-limit", c09Job{Entry: c09EResume, MaxH: 1 << 10, MaxS: 8 << 20, In: c09PutUvarint(24 << 20),
+		W: []uint64{0, 0, 0x0401, 0, 2048, 0, 0, 0, 0, 1 << 10, 8 << 20}}, c09Expect{"over", "hdr2big"})
+	// the same claim through the entry points that do honour the limit (the seeded ReadOrGenerateIndex change)
+	for v := byte(0); v < 4; v++ {
+		add("example:claim-header-24MiB-limit-1KiB", c09Job{Entry: c09ELoadIndex, MaxH: 1 << 10, MaxS: 4 << 10, Choice: []byte{v},
+			In: append(c09PutUvarint(24<<20), 0xa2, 0x65, 0x72, 0x6f, 0x6f, 0x74, 0x73, 0x80, 0x67, 0x76, 0x65, 0x72), MaxSeek: memMaxSeek}, c09Expect{"over", "hdr2big"})
+	}
 	// known finding: a section limit above the runtime's maximum allocation (TotalMain.huge_limit_file)
 	noRoots := refPayload(nil, nil)
 	add("known:limit-above-runtime-max", c09Job{Entry: c09EBr, MaxH: 32 << 20, MaxS: 1 << 62, Trusted: true,
